@@ -122,7 +122,7 @@ impl Sess {
         match ct {
             20 => vec![1],
             21 => match var % 4 { 0 => vec![1, 0], 1 => vec![2, 40], 2 => vec![2, 0], _ => vec![1] },
-            22 if var == 10 => hs_msg(11, next_seq, &self.other_cert_body),   // decodable Certificate, wrong identity (clear-text injections only)
+            22 if var == 10 => hs_msg(11, next_seq, &self.other_cert_body),   // decodable Certificate, wrong identity (clear text and sealed)
             22 => match var % 10 {
                 0 => hs_msg(20, next_seq, &[0xAB; 12]),                         // Finished, expected seq, wrong verify_data
                 1 => hs_msg(20, next_seq - 1, &[0xAB; 12]),                     // duplicate seq
@@ -259,10 +259,10 @@ pub async fn run_session(target_is_client: bool, script: &[(Inj, bool)]) -> Opti
             let mut b = ((der.len() + 3) as u32).to_be_bytes()[1..].to_vec(); b.extend_from_slice(&(der.len() as u32).to_be_bytes()[1..]); b.extend_from_slice(&der); b } };
     let third: SocketAddr = "127.0.0.9:4444".parse().unwrap();
     let genuine = target.sink_addr;
-    let mut input = format!("init,{},{},{},{},{},{},{},{},{},{}", if target_is_client { "c" } else { "s" },
+    let mut input = format!("init,{},{},{},{},{},{},{},{},{},{},{}", if target_is_client { "c" } else { "s" },
         hex(&keys.master_secret), hex(&keys.client_random), hex(&keys.server_random),
         hex(&keys.client_write_key), hex(&keys.server_write_key), hex(&keys.client_write_iv), hex(&keys.server_write_iv),
-        hex(&sess.vd_client), hex(&sess.vd_server));
+        hex(&sess.vd_client), hex(&sess.vd_server), hex(&sess.other_cert_body));
     let mut out = vec![];
     let mut fails = vec![];
     let mut tags = vec![];
@@ -307,6 +307,12 @@ pub async fn run_session(target_is_client: bool, script: &[(Inj, bool)]) -> Opti
                 if after != before && !auth.iter().any(|(ct, _)| *ct == 21 || *ct == 22) {
                     fails.push((format!("rec:{cls}:state-{before}-to-{after}-unauthenticated"), inj.text()));
                 }
+                // an unauthenticated datagram draws no reply either (reflection / amplification towards the genuine peer) —
+                // except the documented residual: a clear-text ClientHello makes a server re-send its last flight
+                let has_client_hello = parse_records(&dg).iter().any(|r| r.epoch == 0 && r.ctype == 22 && hs::parse_hs(&r.body).iter().any(|m| m.typ == 1));
+                if auth.is_empty() && !sent.is_empty() && !(has_client_hello && !sess.target_is_client) {
+                    fails.push((format!("rec:{cls}:reply-sent-to-unauthenticated-datagram"), inj.text()));
+                }
                 tags.push(format!("inj:{}:{}", cls, if auth.is_empty() { "unauth" } else { "auth" }));
                 if *from_third { tags.push("src:third-party".into()); } else { tags.push("src:genuine".into()); }
                 Obs { letter: after, state: target.state_text(), alive: !target.done, delivered, sent }
@@ -349,7 +355,7 @@ fn gen_inj(rng: &mut Rng, depth: u8) -> Inj {
     let epochs = [0u16, 1, 2, 65535];
     match rng.below(100) {
         0..=24 => Inj::Plain { ct: *rng.pick(&cts), epoch: *rng.pick(&[0u16, 0, 0, 1, 2]), var: rng.below(11) as u8 },
-        25..=44 => Inj::Sealed { ct: *rng.pick(&cts), epoch: *rng.pick(&[1u16, 1, 1, 2, 0, 65535]), var: rng.below(10) as u8,
+        25..=44 => Inj::Sealed { ct: *rng.pick(&cts), epoch: *rng.pick(&[1u16, 1, 1, 2, 0, 65535]), var: rng.below(11) as u8,
                                   seq: *rng.pick(&[0u64, 1, 2, 500, (1 << 48) - 1]) },
         45..=54 => Inj::WrongKey { ct: *rng.pick(&cts), epoch: *rng.pick(&epochs[1..]), var: rng.below(10) as u8, which: rng.below(2) as u8 },
         55..=79 => Inj::Captured { len: *rng.pick(&[1u16, 16, 16, 100, 100, 300, 1200]), mutation: match rng.below(10) {
@@ -381,7 +387,12 @@ fn directed() -> Vec<Vec<(Inj, bool)>> {
         v.push(vec![(Inj::Plain { ct: 21, epoch: 0, var: 0 }, third), (Inj::Captured { len: 16, mutation: Mut::None }, false)]);
         v.push(vec![(Inj::Plain { ct: 22, epoch: 0, var: 0 }, third), (Inj::Captured { len: 16, mutation: Mut::None }, false)]);
         v.push(vec![(Inj::Plain { ct: 22, epoch: 0, var: 3 }, third), (Inj::Plain { ct: 22, epoch: 0, var: 5 }, third)]);
+        // a clear-text *duplicate* Finished (anybody can send one): no re-flight towards the genuine peer
+        v.push(vec![(Inj::Plain { ct: 22, epoch: 0, var: 1 }, third), (Inj::Captured { len: 16, mutation: Mut::None }, false)]);
         v.push(vec![(Inj::Plain { ct: 22, epoch: 0, var: 10 }, third), (Inj::Captured { len: 16, mutation: Mut::None }, false)]);
+        // … and the same Certificate in a record that authenticates (only the key holder can do this): a client that pinned
+        // another fingerprint fails, a server without expectation takes note of it and stays Connected
+        v.push(vec![(Inj::Sealed { ct: 22, epoch: 1, var: 10, seq: 7 }, third), (Inj::Captured { len: 16, mutation: Mut::None }, false)]);
         for ct in [20u8, 21, 22, 23, 24] { for ep in [0u16, 1, 2] {
             v.push(vec![(Inj::Plain { ct, epoch: ep, var: 0 }, third), (Inj::Sealed { ct, epoch: ep.max(1), var: 0, seq: 40 }, third),
                         (Inj::WrongKey { ct, epoch: ep.max(1), var: 0, which: 0 }, third)]);
